@@ -704,7 +704,11 @@ def run_node(c):
             return answers, (0, 'loading', 'loaded node has %d transforms, the file has %d' % (len(rn.node.transforms), len(elems)))
         # document order: the i-th loaded transform means what the i-th transform element of the file says
         for i, (k, m) in enumerate(zip(elems, answers[0][2])):
-            wrong = oracle_tf(dict(k, type='tf', route='load'), ('ok', flat(m)))
+            tc = dict(k, type='tf', route='load')
+            wrong = oracle_tf(tc, ('ok', flat(m)))
+            alone = oracle_tf(tc, real_tf(tc))
+            if alone:           # the element itself is wrong, wherever it stands: a transform defect, not an ordering one
+                return answers, (0, 'tf:%s:%s' % (k['k'], alone[0][0]), alone[0][1])
             if wrong:
                 return answers, (0, 'loading', 'transform %d of the loaded node is not what element %d of the file (<%s>%s) means: %s'
                                  % (i, i, TAG[k['k']], k['text'].strip(), wrong[0][1]))
@@ -887,7 +891,7 @@ def check_node(ctx, c, model, reported):
     for op, a in zip(c['ops'], answers[1:]):
         ctx.count('op:' + op[0] + ('' if a[0].startswith('ok') else ':' + a[0].split()[0]))
     if bad:
-        sig = 'node:%s' % bad[1]
+        sig = bad[1] if bad[1].startswith('tf:') else 'node:%s' % bad[1]
         if sig not in reported:
             reported.add(sig)
             small = shrink_node(c, lambda cc: (lambda r: r[1] is not None and r[1][1] == bad[1])(run_node(cc)))
